@@ -290,7 +290,7 @@ pub fn h_c14_cdata() {
     xot.append_text(a, &t).unwrap();
     let b = xot.new_element(nb);
     xot.append(a, b).unwrap();
-    let u = one("u");
+    let u = if sym::param("SYMU", 0) == 1 { one("u") } else { "]]>".to_string() };
     xot.append_text(b, &u).unwrap();
     let set = sym::choose("cdata", 3);
     let cdata = match set {
@@ -406,7 +406,7 @@ pub fn h_c14_pretty() {
         }
     }
     let mixed_at = sym::choose("mixed", 4);
-    let t = one("t");
+    let t = if sym::param("SYMT", 0) == 1 { one("t") } else { "x".to_string() };
     sym::assume(!only_ws(&t));
     match mixed_at {
         1 => xot.append_text(b, &t).unwrap(),
